@@ -33,6 +33,136 @@ type Engine struct {
 	assumed   map[string]bool
 	loadErrs  []string
 	renameNotes []string
+	ginit     *globalInit
+	ginitOnce sync.Once
+}
+
+// globalInit: the values package init gives to package-level variables that are never written afterwards
+// (lookup tables). The init function is executed by the same symbolic executor (it is straight-line code over
+// constants); its objects and regions are shared, read-only, by every unit.
+type globalInit struct {
+	st    *State
+	objOf map[*ssa.Global]*Object
+	note  string
+}
+
+// readonlyGlobals: globals of the package that no function other than init stores to or takes the address of
+// (except to index / select a field and load).
+func (e *Engine) readonlyGlobals() map[*ssa.Global]bool {
+	ro := map[*ssa.Global]bool{}
+	for _, m := range e.ssaPkg.Members {
+		if g, ok := m.(*ssa.Global); ok {
+			ro[g] = true
+		}
+	}
+	var onlyLoaded func(v ssa.Value) bool
+	onlyLoaded = func(v ssa.Value) bool {
+		refs := v.Referrers()
+		if refs == nil {
+			return false
+		}
+		for _, r := range *refs {
+			switch x := r.(type) {
+			case *ssa.UnOp:
+				if x.Op != token.MUL {
+					return false
+				}
+			case *ssa.IndexAddr:
+				if x.X != v || !onlyLoaded(x) {
+					return false
+				}
+			case *ssa.FieldAddr:
+				if x.X != v || !onlyLoaded(x) {
+					return false
+				}
+			case *ssa.DebugRef:
+			default:
+				return false
+			}
+		}
+		return true
+	}
+	for fn := range ssautil.AllFunctions(e.prog) {
+		if fn.Pkg != e.ssaPkg || fn.Name() == "init" {
+			continue
+		}
+		for _, b := range fn.Blocks {
+			for _, in := range b.Instrs {
+				for _, op := range in.Operands(nil) {
+					g, ok := (*op).(*ssa.Global)
+					if !ok || !ro[g] {
+						continue
+					}
+					switch x := in.(type) {
+					case *ssa.UnOp:
+						if x.Op != token.MUL {
+							ro[g] = false
+						}
+					case *ssa.IndexAddr:
+						if x.X != ssa.Value(g) || !onlyLoaded(x) {
+							ro[g] = false
+						}
+					case *ssa.FieldAddr:
+						if x.X != ssa.Value(g) || !onlyLoaded(x) {
+							ro[g] = false
+						}
+					case *ssa.DebugRef:
+					default:
+						ro[g] = false
+					}
+				}
+			}
+		}
+	}
+	return ro
+}
+
+func (e *Engine) globalInitInfo() *globalInit {
+	e.ginitOnce.Do(func() {
+		gi := &globalInit{objOf: map[*ssa.Global]*Object{}}
+		e.ginit = gi
+		initFn := e.ssaPkg.Func("init")
+		if initFn == nil || len(initFn.Blocks) == 0 {
+			return
+		}
+		ro := e.readonlyGlobals()
+		u := e.newUnit(&Contract{Key: "init", Fn: initFn, Loops: map[int]*LoopContract{}, Unroll: map[int]int{}}, "")
+		u.nextID = 1 << 28
+		u.initMode = true
+		u.initVals = map[*ssa.Global]Value{}
+		u.initObjs = map[*ssa.Global]*Object{}
+		u.inc = NewIncSolver()
+		defer u.inc.Close()
+		st := newState()
+		var outs []Outcome
+		func() {
+			defer func() {
+				if r := recover(); r != nil {
+					gi.note = fmt.Sprint(r)
+				}
+			}()
+			fr := u.newFrame(initFn, nil, 0, st)
+			fr.top = true
+			outs = u.enter(st, fr, initFn.Blocks[0])
+		}()
+		if len(outs) != 1 || len(u.unsup) > 0 || u.aborted != "" {
+			gi.note += fmt.Sprintf(" init not fully executed (outcomes=%d unsupported=%v %s)", len(outs), u.unsup, u.aborted)
+			gi.st = newState()
+			return
+		}
+		gi.st = outs[0].st
+		for g, o := range u.initObjs {
+			if !ro[g] || isErrorType(g.Type().(*types.Pointer).Elem()) {
+				continue
+			}
+			o.fresh = false
+			gi.objOf[g] = o
+		}
+		if os.Getenv("GOVC_PATHS") != "" {
+			fmt.Fprintf(os.Stderr, "  [init] note=%q unsup=%v aborted=%q vals=%d tables=%d\n", gi.note, u.unsup, u.aborted, len(u.initVals), len(gi.objOf))
+		}
+	})
+	return e.ginit
 }
 
 func (e *Engine) noteAssumed(s string) {
